@@ -358,6 +358,10 @@ func (rd *HandlingDataManager) handleApplyFlows() func(http.ResponseWriter, *htt
 		}
 
 		fileSystemOperations := config.NewFileSystemOperation()
+		if err := fileSystemOperations.Backup(); err != nil {
+			handleError(writer, "Failed to backup", http.StatusInternalServerError, err)
+			return
+		}
 
 		if err := incomingData.ParsePayload(); err != nil {
 			handleError(writer, "Failed to parse incoming data", http.StatusBadRequest, err)
@@ -366,17 +370,29 @@ func (rd *HandlingDataManager) handleApplyFlows() func(http.ResponseWriter, *htt
 
 		if err := incomingData.CleanUpGatewayDirectories(fileSystemOperations); err != nil {
 			handleError(writer, "Failed to clean up", http.StatusInternalServerError, err)
+			if err = fileSystemOperations.Restore(); err != nil {
+				log.Error().Err(err).Msg("Failed to restore file system operations")
+			}
 			return
 		}
 
 		if err := incomingData.SavePayloadContentToDisk(fileSystemOperations); err != nil {
 			handleError(writer, "Failed to save payload content to disk",
 				http.StatusInternalServerError, err)
+			if err = fileSystemOperations.Restore(); err != nil {
+				log.Error().Err(err).Msg("Failed to restore file system operations")
+			}
 			return
 		}
 
 		if err := rd.reloadFlows(); err != nil {
 			handleError(writer, err.Error(), http.StatusUnprocessableEntity, err)
+			if err = fileSystemOperations.Restore(); err != nil {
+				log.Error().Err(err).Msg("Failed to restore file system operations")
+			}
+			if err = rd.reloadFlows(); err != nil {
+				log.Error().Err(err).Msg("Failed to reload flows after restore")
+			}
 			return
 		}
 
